@@ -313,7 +313,11 @@ class Array(Processor):
 
             # Skip redundant bits post decoding.
             if self.extensible and not ctx.is_encode:
-                ito = i + ahead * self.capacity
+                # Number of bits occupied by each element just processed (after the
+                # 16 bits ahead flag), the opponent's extra elements are of this size.
+                element_nbits = (ctx.i - i - 16) // self.capacity
+                # The opponent array occupies 16 + ahead * element_nbits bits.
+                ito = i + 16 + ahead * element_nbits
                 if ito >= ctx.i:
                     ctx.i = ito
 
